@@ -32,6 +32,11 @@ class _MemmapFactory(object):
 memmap = _MemmapFactory()
 
 
+def fromfile(file, dtype=float, count=-1, sep='', offset=0):
+    from ._memmap import fromfile_decode
+    return fromfile_decode(file, dtype, count, sep, offset)
+
+
 class _Random(object):
     def choice(self, a, size=None, replace=True, p=None):
         raise ModelGap('np.random.choice (stub per harness)')
